@@ -12,7 +12,7 @@ import VaxisModel.Lemmas.TermInput
 namespace VaxisModel.Props.C13
 open VaxisModel.Model.Key VaxisModel.Model.Mouse VaxisModel.Model.TermKey VaxisModel.Model.TermMouse
 open VaxisModel.Spec.KeyEnc VaxisModel.Spec.TermInput VaxisModel.Gen.Keys
-open VaxisModel.Lemmas.TermInput
+open VaxisModel.Lemmas.TermInput VaxisModel.Lemmas.KeyDecode
 
 /-! ## Keys -/
 
@@ -80,6 +80,111 @@ theorem special_keys_exact :
       | some s => kc == KeyBackspace || encodeTables kc m md.1 md.2 == some (renderSeq s)
       | none => true) = true := by
   decide +kernel
+
+/-! ## Character keys: all code points, all `unicode` tables -/
+
+/-- **plain_char_roundtrip.** Any unmodified character key (any code point ≥ 32 below MaxRune, any
+    `unicode` tables, any key modes, whatever text/codes the event carries): the widget writes the
+    character itself and the decoded event matches it. -/
+theorem plain_char_roundtrip (u : Uni) (k : Key) (pam ckm : Bool)
+    (hm : xtermMods k = 0) (hk : 32 ≤ k.keycode ∧ k.keycode < maxRune ∧ validRune k.keycode = true)
+    (h127 : u.isUpper k.keycode = true → u.toLower k.keycode ≠ 127) :
+    encodeXterm u k pam ckm = renderSeq (.print [k.keycode]) ∧
+    keyArrives u k (decodeKey u (.print [k.keycode])) := by
+  obtain ⟨h32, hmax, hv⟩ := hk
+  have hm7 : k.mods &&& 7 = 0 := hm
+  constructor
+  · unfold encodeXterm
+    simp only [xm_eq, hm7]
+    rw [encodeTables_char _ _ _ _ hmax (Or.inr (by decide))]
+    simp [strOfRune, hv, renderSeq]
+  · unfold keyArrives
+    rw [hm, decodeKey_print u [k.keycode] (by simp) (by simpa using h127)]
+    by_cases hu : u.isUpper k.keycode = true
+    · have e : printExpected u [k.keycode] = { keycode := u.toLower k.keycode, shifted := k.keycode, mods := shiftBit, text := [k.keycode] } := by
+        simp [printExpected, hu]
+      rw [e]; unfold matchSpec
+      exact Or.inr (Or.inr (Or.inl ⟨rfl, show stripLocks 0 = unshift (stripLocks shiftBit) by decide⟩))
+    · by_cases hd : k.keycode = 0x7F
+      · have hu' : u.isUpper 127 = false := by rw [hd] at hu; simpa using hu
+        have e : printExpected u [k.keycode] = { keycode := KeyBackspace } := by
+          simp [printExpected, hu', hd]
+        rw [e]; unfold matchSpec
+        exact Or.inl ⟨hd.symm, rfl⟩
+      · have e : printExpected u [k.keycode] = { keycode := k.keycode, text := [k.keycode] } := by
+          simp [printExpected, hu, hd]
+        rw [e]; unfold matchSpec
+        exact Or.inl ⟨rfl, rfl⟩
+
+/-- **alt_char_roundtrip.** Alt + any character key whose ESC-prefixed form is one parsed sequence:
+    `ESC ch` is written and decodes to an event matching (key, Alt) — upper-case letters included
+    (they decode as Alt+Shift+lower-case with the shifted code). -/
+theorem alt_char_roundtrip (u : Uni) (k : Key) (pam ckm : Bool)
+    (hm : xtermMods k = altBit) (hk : 32 ≤ k.keycode ∧ k.keycode < maxRune ∧ validRune k.keycode = true) :
+    encodeXterm u k pam ckm = renderSeq (.esc k.keycode) ∧
+    keyArrives u k (decodeKey u (.esc k.keycode)) := by
+  obtain ⟨h32, hmax, hv⟩ := hk
+  have hm7 : k.mods &&& 7 = 2 := hm
+  have ha : k.mods &&& ModAlt = 2 := by
+    have := and7 k.mods ModAlt (by decide); rw [this, hm7]; decide
+  have hc : k.mods &&& ModCtrl = 0 := by
+    have := and7 k.mods ModCtrl (by decide); rw [this, hm7]; decide
+  constructor
+  · unfold encodeXterm
+    simp only [xm_eq, hm7]
+    rw [encodeTables_char _ _ _ _ hmax (Or.inr (by decide))]
+    have ha' : k.mods &&& 2 = 2 := ha
+    simp [strOfRune, hv, renderSeq, hmax, ModAlt, ModCtrl, ModShift]
+    intro _ _ h2; omega
+  · unfold keyArrives
+    rw [hm, decodeKey_esc]
+    by_cases hu : u.isUpper k.keycode = true
+    · have e : escExpected u k.keycode = { keycode := u.toLower k.keycode, shifted := k.keycode, mods := altBit ||| shiftBit } := by
+        simp [escExpected, hu]
+      rw [e]; unfold matchSpec
+      exact Or.inr (Or.inr (Or.inl ⟨rfl, show stripLocks altBit = unshift (stripLocks (altBit ||| shiftBit)) by decide⟩))
+    · have e : escExpected u k.keycode = { keycode := k.keycode, mods := altBit } := by
+        simp [escExpected, hu]
+      rw [e]; unfold matchSpec
+      exact Or.inl ⟨rfl, rfl⟩
+
+/-- **ctrl_letter_roundtrip.** Ctrl + a lower-case ASCII letter other than h, i, m (whose C0 bytes are
+    BackSpace, Tab, Enter): the C0 byte is written and decodes to an event matching (letter, Ctrl).
+    `u.isLower` must say the letter is lower-case (as Go does). -/
+theorem ctrl_letter_roundtrip (u : Uni) (k : Key) (pam ckm : Bool)
+    (hm : xtermMods k = ctrlBit)
+    (hk : 97 ≤ k.keycode ∧ k.keycode ≤ 122 ∧ k.keycode ≠ 104 ∧ k.keycode ≠ 105 ∧ k.keycode ≠ 109)
+    (hl : u.isLower k.keycode = true) :
+    encodeXterm u k pam ckm = renderSeq (.c0 (k.keycode - 96)) ∧
+    keyArrives u k (decodeKey u (.c0 (k.keycode - 96))) := by
+  obtain ⟨h97, h122, hh, hi, hmm⟩ := hk
+  have hm7 : k.mods &&& 7 = 4 := hm
+  have hc : k.mods &&& ModCtrl = 4 := by
+    have := and7 k.mods ModCtrl (by decide); rw [this, hm7]; decide
+  have hmax : k.keycode < maxRune := by simp only [maxRune]; omega
+  constructor
+  · unfold encodeXterm
+    simp only [xm_eq, hm7]
+    rw [encodeTables_char _ _ _ _ hmax (Or.inr (by decide))]
+    have hc' : k.mods &&& 4 = 4 := hc
+    have hv : validRune (k.keycode - 96) = true := by
+      have hmr : maxRune = 1114111 := rfl
+      simp only [validRune, hmr, Bool.and_eq_true, Bool.not_eq_true', decide_eq_true_eq, Bool.and_eq_false_imp]
+      omega
+    simp [strOfRune, hv, renderSeq, hmax, ModAlt, ModCtrl, ModShift, hl, hc']
+  · unfold keyArrives
+    rw [hm, decodeKey_c0 u _ (by omega) (by omega)]
+    have e : c0Expected (k.keycode - 96) = { keycode := k.keycode, mods := ctrlBit } := by
+      unfold c0Expected
+      have h8 : ¬ k.keycode - 96 = 8 := by omega
+      have h9 : ¬ k.keycode - 96 = 9 := by omega
+      have h13 : ¬ k.keycode - 96 = 13 := by omega
+      have h27 : ¬ k.keycode - 96 = 27 := by omega
+      have hr : 1 ≤ k.keycode - 96 ∧ k.keycode - 96 ≤ 26 := by omega
+      simp only [h8, h9, h13, h27, hr, and_self, if_true, if_false]
+      congr 1; omega
+    rw [e]; unfold matchSpec
+    exact Or.inl ⟨rfl, rfl⟩
 
 /-! ## Mouse -/
 
